@@ -471,3 +471,21 @@ def c13_7(R):
                 R.fail([D + "::on_control", "next_connection_id", "step=%s under-insert-true=%s" % (t.args[1].scalar if t.args[1].kind == "const" else "?", on_true)], "the outgoing connection id is not advanced by 2 after a registered connect: concurrent connects to one peer reuse an id (or collide with the +1 send id)", where=t.where(), instance="conn-id-advances")
     if not found:
         R.fail([D + "::on_control", "next_connection_id-never-advanced"], "on_control no longer advances next_connection_id after registering a connect: every pending connect to a peer uses the same connection id", instance="conn-id-advances")
+
+
+@rule("C13.8", ["C13"], ["E2"], "an accept request is taken from the channel only when none is parked",
+      "AcceptQueue::try_next_acceptor calls rx.try_recv() only on the path where next_available_acceptor.take() returned None: an eager `.or(self.rx.try_recv().ok())` receives (and drops) a second "
+      "request whenever a parked one is handed out - that accept() call never completes although the peer's connection is established.")
+def c13_8(R):
+    b = R.body("socket::AcceptQueue::try_next_acceptor")
+    tr = [t for t in b.calls() if (t.resolved or "").endswith("UnboundedReceiver::try_recv") or (t.callee or "").endswith("::try_recv")]
+    R.floor("try_recv in try_next_acceptor", len(tr), 1)
+    for t in tr:
+        ok = False
+        for c, truth, d, *_ in controlling(b, t.bb):
+            if c.kind == "discr" and d.endswith("=None") and c.trace.kind == "call" and call_matches(c.trace.root[1], ("Option::take",)) and trace(b, c.trace.root[1].args[0]).last_field == "AcceptQueue.next_available_acceptor":
+                ok = True
+        if ok:
+            R.ok("recv-only-if-none-parked", b.name, "try_recv() under next_available_acceptor.take() = None")
+        else:
+            R.fail([b.name, "try_recv-not-under(parked=None)"], "a request is received from the accept channel even when a parked acceptor is handed out: the received one is dropped and its accept() never returns", where=t.where(), instance="recv-only-if-none-parked")
